@@ -2219,6 +2219,46 @@ def rule_X6(F, R, parts=('coverage', 'labels')):
     R.sample({'rule': 'X6', 'recursive fields': rf, 'visited by nodes_recursive': {k: sorted(v) for k, v in cov_nodes.items()}, 'edges emitted': {k: sorted(v) for k, v in cov_edges.items()}})
 
 # ------------------------------------------------------------------------------------------------ X7 exporter plumbing
+def rule_X4_rendered(F, R):
+    """C14: an export that is asked for is written: every graph object main builds for -d / -p (`BDDGraph::new`, `SymbolicParseTree::new`) is
+    the receiver of a `render_dot` call whose outcome is propagated (a created but never written file is an empty export that exits 0)"""
+    binc = F.bin()
+    main = binc.ithir.get('rsbdd::main') if binc else None
+    if main is None:
+        R.violation('rsbdd::main / X4 / anchor', 'UNDECIDABLE', 'main not found'); return
+    CTORS = ('rsbdd::bdd_io::BDDGraph::new', 'rsbdd::parser_io::SymbolicParseTree::new')
+    tried = set()
+    for e in walk(main['body']):
+        if e['k'] == 'Match' and 'TryDesugar' in str(e.get('source')):
+            for x in walk(e['scrutinee']): tried.add(id(x))
+    tails = []
+    def tail_of(b):
+        while b['k'] in ('Use', 'NeverToAny'): b = b['source']
+        if b['k'] == 'Block' and b.get('expr') is not None: tail_of(b['expr'])
+        elif b['k'] == 'If':
+            tail_of(b['then'])
+            if b.get('else') is not None: tail_of(b['else'])
+        else: tails.append(b)
+    n = 0
+    for b in walk(main['body']):
+        if b['k'] != 'Block': continue
+        for st in b['stmts']:
+            if st['k'] != 'Let' or st.get('init') is None: continue
+            i0 = strip(st['init'])
+            if not (i0['k'] == 'Call' and callee_name(i0) in CTORS): continue
+            g = unwrap_pat(st['pat']).get('var')
+            n += 1
+            renders = [x for x in walk(b) if x['k'] == 'Call' and (callee_name(x) or '').split('::')[-1] == 'render_dot' and x['args'] and root_var(x['args'][0]) == g]
+            tails.clear(); tail_of(b)
+            ok = len(renders) >= 1 and all(id(x) in tried or any(x is t_ for t_ in tails) for x in renders)
+            R.count('X4:exports-rendered'); R.obligation(ok, 'X4 rendered %s' % st.get('loc'))
+            if not ok:
+                R.violation('rsbdd::main / X4 / export written', 'X4', 'the %s built for the export must be rendered into its file with the outcome propagated (found %d render_dot call(s))' % (callee_name(i0).split('::')[-2], len(renders)), st.get('loc'))
+    if n == 0:
+        # the exports may live in helpers that were not inlined: then the constructors are not in main at all
+        others = [nm for nm, t_ in binc.ithir.items() if '{closure' not in nm and any(x['k'] == 'Call' and callee_name(x) in CTORS for x in walk(t_['body']))]
+        if not others: R.violation('rsbdd::main / X4 / export written / VACUITY', 'VACUITY', 'no export graph is built anywhere in the binary')
+
 def rule_X7_children(F, R):
     """C14: the diagram exporter descends into *both* children of every decision node, for the node list and for the edge list (a walker
     that visits one child twice leaves the other sub-diagram out: edges into nodes that are never declared); and the parse-tree exporter
